@@ -325,11 +325,50 @@ func enumLexemes(e *rt.Env, yield func(Case) bool) {
 	e.Rec.AddPart(cov.Part{Name: fmt.Sprintf("all lexeme sequences of length <=%d over %d lexemes x 4 option sets", maxLen, len(lexemes)), Size: total, Complete: complete})
 }
 
-// genDupNames builds objects whose duplicate (or near-duplicate) name sits
-// before / at / after the 64-name and 1 KiB-of-names thresholds, spelled with
-// different escapes.
+// genDupNames builds one to three sibling objects (array elements or stream
+// values) whose duplicate (or near-duplicate) name sits before / at / after
+// the 64-name and 1 KiB-of-names thresholds of the name tracking, spelled with
+// different escapes; later siblings reuse names of earlier ones (which is
+// legal), so state left behind by an earlier object shows up.
 func genDupNames(t *rapid.T) Case {
-	n := rapid.SampledFrom([]int{2, 3, 8, 31, 32, 33, 62, 63, 64, 65, 66, 67, 100, 129, 200}).Draw(t, "n")
+	nobj := rapid.SampledFrom([]int{1, 1, 2, 3}).Draw(t, "nobj")
+	var sb strings.Builder
+	depth := rapid.IntRange(0, 2).Draw(t, "depth")
+	for i := 0; i < depth; i++ {
+		sb.WriteString(rapid.SampledFrom([]string{`[`, `{"o":`, `[1,`}).Draw(t, "open"))
+	}
+	openers := sb.String()
+	container := rapid.SampledFrom([]string{"array", "stream"}).Draw(t, "siblings")
+	if depth > 0 || nobj == 1 {
+		container = "array"
+	}
+	if nobj > 1 || container == "array" && rapid.Bool().Draw(t, "wrap") {
+		sb.WriteByte('[')
+		openers += "["
+	}
+	for o := 0; o < nobj; o++ {
+		if o > 0 {
+			if container == "array" {
+				sb.WriteByte(',')
+			} else {
+				sb.WriteString(rapid.SampledFrom([]string{"", " ", "\n"}).Draw(t, "sep"))
+			}
+		}
+		genOneObject(t, &sb)
+	}
+	for i := len(openers) - 1; i >= 0; i-- {
+		switch openers[i] {
+		case '[':
+			sb.WriteByte(']')
+		case '{':
+			sb.WriteByte('}')
+		}
+	}
+	return Case{Input: []byte(sb.String()), UTF8: rapid.Bool().Draw(t, "allowutf8"), Dup: rapid.Bool().Draw(t, "allowdup")}
+}
+
+func genOneObject(t *rapid.T, sb *strings.Builder) {
+	n := rapid.SampledFrom([]int{1, 2, 3, 8, 21, 22, 23, 31, 32, 33, 62, 63, 64, 65, 66, 67, 68, 100, 129, 200}).Draw(t, "n")
 	long := rapid.Bool().Draw(t, "longnames") // push total name bytes over 1 KiB early
 	names := make([]string, n)
 	for i := range names {
@@ -339,8 +378,10 @@ func genDupNames(t *rapid.T) Case {
 			names[i] = fmt.Sprintf("k%d", i)
 		}
 	}
+	if rapid.IntRange(0, 5).Draw(t, "huge0") == 0 {
+		names[0] = "h" + strings.Repeat("y", rapid.SampledFrom([]int{1018, 1019, 1020, 1021, 1022, 1023, 1024, 1025, 1100}).Draw(t, "hugelen"))
+	}
 	spell := func(s string) string {
-		// re-spell the first byte with an escape
 		switch rapid.IntRange(0, 3).Draw(t, "spell") {
 		case 0:
 			return s
@@ -352,15 +393,26 @@ func genDupNames(t *rapid.T) Case {
 			return s[:len(s)-1] + fmt.Sprintf("\\u%04x", s[len(s)-1])
 		}
 	}
-	inject := rapid.IntRange(0, 3).Draw(t, "inject")
-	src := rapid.IntRange(0, n-1).Draw(t, "src")
-	dst := rapid.IntRange(0, n-1).Draw(t, "dst")
-	var sb strings.Builder
-	depth := rapid.IntRange(0, 2).Draw(t, "depth")
-	for i := 0; i < depth; i++ {
-		sb.WriteString(rapid.SampledFrom([]string{`[`, `{"o":`, `[1,`}).Draw(t, "open"))
+	// boundary-biased positions: the duplicated name (src) and where the duplicate goes (dst > src)
+	idx := func(label string) int {
+		c := []int{0, 1, 20, 21, 22, 23, 62, 63, 64, 65, 66, 67, n - 2, n - 1}
+		i := rapid.SampledFrom(c).Draw(t, label)
+		if rapid.IntRange(0, 3).Draw(t, label+"rnd") == 0 {
+			i = rapid.IntRange(0, n-1).Draw(t, label+"any")
+		}
+		if i < 0 {
+			i = 0
+		}
+		if i >= n {
+			i = n - 1
+		}
+		return i
 	}
-	openers := sb.String()
+	inject := rapid.IntRange(0, 3).Draw(t, "inject")
+	src, dst := idx("src"), idx("dst")
+	if dst < src {
+		src, dst = dst, src
+	}
 	sb.WriteByte('{')
 	for i, nm := range names {
 		if i > 0 {
@@ -377,16 +429,6 @@ func genDupNames(t *rapid.T) Case {
 		sb.WriteString(`"` + nm + `":` + rapid.SampledFrom([]string{"0", `"v"`, "null", "[]", "{}"}).Draw(t, "val"))
 	}
 	sb.WriteByte('}')
-	// close
-	for i := len(openers) - 1; i >= 0; i-- {
-		switch openers[i] {
-		case '[':
-			sb.WriteByte(']')
-		case '{':
-			sb.WriteByte('}')
-		}
-	}
-	return Case{Input: []byte(sb.String()), UTF8: rapid.Bool().Draw(t, "allowutf8"), Dup: rapid.Bool().Draw(t, "allowdup")}
 }
 
 // genDepth builds towers around the 10000 limit.
